@@ -964,13 +964,8 @@ impl<'a> Gen<'a> {
         s
     }
 
-    /// Listed finding KF-C07-sqlite-limit-returning: SQLite wants RETURNING before ORDER BY/LIMIT in
-    /// UPDATE/DELETE; the combination is exercised by the pinned probes only.
-    fn quarantine_limit_returning(&mut self, ret: &mut Option<Returning>, has_limit: bool) {
-        if has_limit && self.cfg.sqlite_like() {
-            *ret = None;
-        }
-    }
+    /// (formerly a quarantine for SQLite's RETURNING-before-LIMIT order; the defect is fixed, commit e09306d)
+    fn quarantine_limit_returning(&mut self, _ret: &mut Option<Returning>, _has_limit: bool) {}
 
     fn attach_cte_filter(&mut self, t: &Rel, with: &mut Option<With>, wheres: &mut Vec<X>) {
         let saved = self.ctes.clone();
